@@ -623,8 +623,11 @@ where
                     }
                 }
             }
-            Instruction::Next => todo!(),
-            Instruction::Last => todo!(),
+            Instruction::Next | Instruction::Last => {
+                // Loop control is not implemented by this VM (the compiler never
+                // emits these); reject them instead of panicking the host.
+                return Err(self.err(MachineErrorType::InvalidInstruction));
+            }
             Instruction::Call(t) => match t {
                 Target::Unresolved(label) => {
                     return Err(self.err(MachineErrorType::UnresolvedTarget(label)));
